@@ -654,6 +654,36 @@ func Grammar(f *Func, writer bool, stream types.Object) ([]Item, []string) {
 		return true
 	})
 	items := x.block(f.Decl.Body.List)
+	// bytes put together with append(b, byte(v), byte(v>>8), …) or read by index arithmetic are not modelled:
+	// a grammar extracted from such a function is incomplete, and says so
+	ast.Inspect(f.Decl.Body, func(n ast.Node) bool {
+		call, ok := n.(*ast.CallExpr)
+		if !ok || len(call.Args) < 2 {
+			return true
+		}
+		id, ok := ast.Unparen(call.Fun).(*ast.Ident)
+		if !ok || id.Name != "append" {
+			return true
+		}
+		if _, isB := f.Pkg.TypesInfo.Uses[id].(*types.Builtin); !isB {
+			return true
+		}
+		if sl, ok := f.TypeOf(call.Args[0]).Underlying().(*types.Slice); ok {
+			if b, ok := sl.Elem().Underlying().(*types.Basic); ok && b.Kind() == types.Uint8 {
+				// appending a whole byte slice to a collected value (valueBytes etc.) is how payloads travel and
+				// is modelled where it matters; a byte-by-byte append of shifted values is the unmodelled form
+				for _, a := range call.Args[1:] {
+					if conv, ok := ast.Unparen(a).(*ast.CallExpr); ok && len(conv.Args) == 1 {
+						if tv, ok := f.Pkg.TypesInfo.Types[conv.Fun]; ok && tv.IsType() {
+							x.problems = append(x.problems, "bytes are assembled with append(b, byte(v), byte(v>>8), …) at "+f.w.Pos(call.Pos())+", a form the layout extraction does not model")
+							return false
+						}
+					}
+				}
+			}
+		}
+		return true
+	})
 	return flattenSplices(items), x.problems
 }
 
